@@ -175,8 +175,65 @@ let generate_run (fk : string) (skip : string) (tree : string) (table : string) 
   let rows = List.map (fun (p, f) -> Printf.sprintf "%s:%s:%d" (hex_of_bytes p) (hex_of_bytes f.f_content) (int_of_z f.f_mtime)) res in
   String.concat ";" (List.sort compare rows)
 
+(* ---- children programs: templates separated by '|', statements by ',', blocks in parentheses ---- *)
+let parse_program (s : string) : tstmt list list =
+  let n = String.length s in
+  let pos = ref 0 in
+  let rec stmts () : tstmt list =
+    if !pos >= n || s.[!pos] = ')' || s.[!pos] = '|' then []
+    else begin
+      let st = stmt () in
+      if !pos < n && s.[!pos] = ',' then incr pos;
+      st :: stmts ()
+    end
+  and stmt () : tstmt =
+    let c = s.[!pos] in
+    incr pos;
+    match c with
+    | 'L' ->
+      let start = !pos in
+      while !pos < n && (match s.[!pos] with '0' .. '9' | 'a' .. 'f' | '~' -> true | _ -> false) do incr pos done;
+      SLit (bytes_of_hex (String.sub s start (!pos - start)))
+    | 'C' -> SChildren
+    | 'R' | 'B' ->
+      let start = !pos in
+      while !pos < n && (match s.[!pos] with '0' .. '9' -> true | _ -> false) do incr pos done;
+      let idx = nat_of_int (int_of_string (String.sub s start (!pos - start))) in
+      if c = 'R' then SRender (idx, None)
+      else begin
+        incr pos; (* '(' *)
+        let b = stmts () in
+        incr pos; (* ')' *)
+        SRender (idx, Some b)
+      end
+    | _ -> failwith "stmt"
+  in
+  let rec templates () =
+    let t = stmts () in
+    if !pos < n && s.[!pos] = '|' then (incr pos; t :: templates ()) else [ t ]
+  in
+  templates ()
+
+(* ---- pool schedules: G<r>[:<choice>], W<r>:<hex>, F<r>:<0|1> separated by ',' ---- *)
+let parse_pstep (s : string) : pstep =
+  let body = String.sub s 1 (String.length s - 1) in
+  match s.[0], String.split_on_char ':' body with
+  | 'G', [ r ] -> PGet (nat_of_int (int_of_string r), None)
+  | 'G', [ r; c ] -> PGet (nat_of_int (int_of_string r), Some (nat_of_int (int_of_string c)))
+  | 'W', [ r; h ] -> PWrite (nat_of_int (int_of_string r), bytes_of_hex h)
+  | 'F', [ r; ok ] -> PFinish (nat_of_int (int_of_string r), ok = "1")
+  | _ -> failwith "pstep"
+
 let handle (line : string) : string =
   match String.split_on_char ' ' line with
+  | [ "children"; main; prog ] ->
+    let p = parse_program prog in
+    let i = nat_of_int (int_of_string main) in
+    let a = exec_template p (nat_of_int 200) i and b = denote_template p (nat_of_int 200) i in
+    "ok " ^ hex_of_bytes a ^ (if a = b then "" else " spec-differs")
+  | [ "pool"; steps ] ->
+    let w = pool_run (List.map parse_pstep (String.split_on_char ',' steps)) world_init in
+    String.concat ";" (List.rev_map (fun (r, b) -> Printf.sprintf "%d=%s" (int_of_nat r) (hex_of_bytes b)) w.w_written)
   | [ "generate"; fk; skip; tree; table ] -> generate_run fk skip tree table
   | [ "proxy"; h ] -> proxy_run h
   | "addimport" :: pkg :: lines ->
